@@ -401,6 +401,15 @@ example : ((({} : St).run ⟨false, true, true, true⟩ [.produce [7, 8], .store
 example : ((({} : St).run ⟨true, true, false, true⟩ [.produce [7, 8], .store 1 0, .hit 1 true 5, .mutate 1 1 42, .hit 1 true 6]).2.getLast?.map
     (fun o => (o.served, o.expected))) = some (some (6, [7, 42]), some [7, 8]) := by decide
 
+/-- a fresh hit that hands out the cache's own locations - even for an answer without any record (question element and
+header element only): the header written through the first hit's handle is what the next query is served -/
+example : ((({} : St).run ⟨true, false, true, true⟩ [.produce [7, 2], .store 1 0, .hit 1 false 5, .mutate 1 1 42, .hit 1 false 6]).2.getLast?.map
+    (fun o => (o.served, o.expected))) = some (some (6, [7, 42]), some [7, 2]) := by decide
+
+/-- with deep copies the same history over a record-less answer serves the stored contents twice -/
+example : ((({} : St).run allDeep [.produce [7, 2], .store 1 0, .hit 1 false 5, .mutate 1 1 42, .mutate 1 0 43, .hit 1 false 6]).2.map
+    (fun o => o.served)) = [none, none, some (5, [7, 2]), none, none, some (6, [7, 2])] := by decide
+
 /-! ## tie to the source -/
 
 theorem facts_guard :
